@@ -35,6 +35,7 @@ pub const REGISTRY: &[(&str, PropFn)] = &[
     ("C17", c17::run),
     ("XHASHORDER", xself::hashorder),
     ("XCROSS", xself::cross),
+    ("XSPAWN", xself::spawn),
 ];
 
 pub fn lookup(name: &str) -> Option<PropFn> {
